@@ -558,4 +558,65 @@ example : renderInt (-9223372036854775808) =
     [45, 57, 50, 50, 51, 51, 55, 50, 48, 51, 54, 56, 53, 52, 55, 55, 53, 56, 48, 56] := by decide
 
 
+/-! ## JSON string escaping inside string-slice tags -/
+section JsonEscape
+open Otel.Utf8
+
+/-- **JSON escaping on ASCII strings is byte by byte**: for a string of bytes below 0x80 the rune walk of
+`encoding/json` degenerates to one chunk per byte, so the escaped text is the concatenation of the per-byte
+escapes. -/
+theorem json_escape_ascii (s : Bytes) (h : ∀ b ∈ s, b.toNat < 0x80) :
+    jsonEscape s = s.flatMap fun b => jsonEscapeChunk ⟨[b], b.toNat, false⟩ := by
+  unfold jsonEscape
+  induction s with
+  | nil => simp
+  | cons b r ih =>
+    have hb : b.toNat < 0x80 := h b (by simp)
+    have hd : decode (b :: r) = (b.toNat, 1) := by simp [decode, hb]
+    have hne : (b.toNat == 0xFFFD) = false := by
+      have : b.toNat ≠ 0xFFFD := by omega
+      simpa using this
+    rw [chunks_cons, hd]
+    simp only [List.flatMap_cons, List.take_succ_cons, List.take_zero, List.drop_succ_cons, List.drop_zero, hne,
+      Bool.false_and]
+    rw [ih (fun x hx => h x (by simp [hx]))]
+
+/-- **what encoding/json leaves alone**: a string of printable ASCII (0x20…0x7f) without `"`, `\`, `<`, `>`, `&`
+is its own escaped form — the class the generators were restricted to before; everything else is now modelled by
+`jsonEscapeChunk` and compared with the real exporter. -/
+theorem json_escape_identity_on_plain (s : Bytes)
+    (h : ∀ b ∈ s, 0x20 ≤ b.toNat ∧ b.toNat < 0x80 ∧ b.toNat ≠ 0x22 ∧ b.toNat ≠ 0x5C ∧ b.toNat ≠ 0x3C ∧
+      b.toNat ≠ 0x3E ∧ b.toNat ≠ 0x26) :
+    jsonEscape s = s := by
+  rw [json_escape_ascii s (fun b hb => (h b hb).2.1)]
+  induction s with
+  | nil => rfl
+  | cons b r ih =>
+    have hb := h b (by simp)
+    have e : jsonEscapeChunk ⟨[b], b.toNat, false⟩ = [b] := by
+      unfold jsonEscapeChunk
+      have h1 : ¬ b.toNat = 0x22 := hb.2.2.1
+      have h2 : ¬ b.toNat = 0x5C := hb.2.2.2.1
+      have h3 : ¬ b.toNat = 8 := by omega
+      have h4 : ¬ b.toNat = 12 := by omega
+      have h5 : ¬ b.toNat = 10 := by omega
+      have h6 : ¬ b.toNat = 13 := by omega
+      have h7 : ¬ b.toNat = 9 := by omega
+      have h8 : ¬ (b.toNat < 0x20 ∨ b.toNat = 0x3C ∨ b.toNat = 0x3E ∨ b.toNat = 0x26) := by omega
+      have h9 : ¬ (b.toNat = 0x2028 ∨ b.toNat = 0x2029) := by omega
+      simp [h1, h2, h3, h4, h5, h6, h7, h8, h9]
+    simp only [List.flatMap_cons, e, List.singleton_append]
+    rw [ih (fun x hx => h x (by simp [hx]))]
+
+/-- the escapes of the special ASCII characters and of the non-ASCII cases, as encoding/json writes them -/
+theorem json_escape_table :
+    jsonEscape [0x22] = [92, 34] ∧ jsonEscape [0x5C] = [92, 92] ∧ jsonEscape [10] = [92, 110] ∧
+    jsonEscape [0x1F] = [92, 117, 48, 48, 49, 102] ∧ jsonEscape [0x3C] = [92, 117, 48, 48, 51, 99] ∧
+    jsonEscape [0x7F] = [0x7F] ∧ jsonEscape [0xFF] = [92, 117, 102, 102, 102, 100] ∧
+    jsonEscape [0xE2, 0x80] = [92, 117, 102, 102, 102, 100, 92, 117, 102, 102, 102, 100] ∧
+    jsonEscape [0xE2, 0x80, 0xA8] = [92, 117, 50, 48, 50, 56] ∧ jsonEscape [0xC3, 0xA9] = [0xC3, 0xA9] ∧
+    jsonEscape [0xEF, 0xBF, 0xBD] = [0xEF, 0xBF, 0xBD] := by decide
+
+end JsonEscape
+
 end Otel.C13
